@@ -75,6 +75,41 @@ func robustApkSeed() []byte {
 	return buildApk(p, "x86_64").bytes
 }
 
+// member-level compositions of an .apk stream: s = signature member (first entry .SIGN.*), c = control member, d = data
+// member, e = a gzip member with an empty payload, g = garbage bytes, t = a truncated copy of the control member
+var robustApkCompositions = []string{"", "s", "c", "d", "sc", "scd", "cd", "sd", "ss", "ssc", "sscd", "scdd", "cdd", "cdc", "dc", "dcs", "csd", "sdc", "cs", "scs",
+	"e", "se", "sce", "ce", "ec", "esc", "sg", "scg", "scdg", "cg", "cdg", "st", "sct", "ct", "scc", "cc", "ccd", "sccd", "cdcd", "scdscd"}
+
+func robustComposeApk(comp string) []byte {
+	ms := robustGunzipMembers(robustApkSeed())
+	if len(ms) < 2 {
+		return nil
+	}
+	ctl, data := gz(ms[len(ms)-2]), gz(ms[len(ms)-1])
+	sig := gz(tarBytes(false, func(tw *tar.Writer) {
+		tw.WriteHeader(&tar.Header{Name: ".SIGN.RSA.verif.rsa.pub", Mode: 0o644, Size: 4, Typeflag: tar.TypeReg})
+		tw.Write([]byte("sig!"))
+	}))
+	var out []byte
+	for _, c := range comp {
+		switch c {
+		case 's':
+			out = append(out, sig...)
+		case 'c':
+			out = append(out, ctl...)
+		case 'd':
+			out = append(out, data...)
+		case 'e':
+			out = append(out, gz(nil)...)
+		case 'g':
+			out = append(out, []byte("garbage after the member")...)
+		case 't':
+			out = append(out, ctl[:len(ctl)/2]...)
+		}
+	}
+	return out
+}
+
 func robustIndexArchiveSeed() []byte {
 	return gz(tarBytes(true, func(tw *tar.Writer) {
 		tw.WriteHeader(&tar.Header{Name: "DESCRIPTION", Mode: 0o644, Size: 1, Typeflag: tar.TypeReg})
@@ -91,7 +126,15 @@ func robustMutate(r *Rng, seed []byte, textual bool) []byte {
 	alphabet := []byte("0123456789abcXYZ:=,.-_/ \n\r\t\x00\xff[]{}\"'#@<>~!")
 	k := 1 + r.Intn(3)
 	for ; k > 0; k-- {
-		switch r.Intn(9) {
+		switch r.Intn(10) {
+		case 8: // a line that is only white space, only a comment marker, or an indented comment
+			if textual {
+				ls := bytes.Split(b, []byte("\n"))
+				i := r.Intn(len(ls) + 1)
+				l := []byte(Pick(r, robustBlankLines))
+				ls = append(ls[:i], append([][]byte{l}, ls[i:]...)...)
+				b = bytes.Join(ls, []byte("\n"))
+			}
 		case 0: // truncate
 			if len(b) > 0 {
 				b = b[:r.Intn(len(b))]
@@ -154,6 +197,9 @@ func robustMutate(r *Rng, seed []byte, textual bool) []byte {
 	}
 	return b
 }
+
+// lines that carry nothing: white space of every kind unicode.IsSpace knows (also as UTF-8), comment markers, indented comments
+var robustBlankLines = []string{" ", "\t", "\v", "\f", "\r", "  ", " \t ", "\xc2\xa0", "\xc2\x85", "\xe2\x80\xa8", "\xe2\x80\x83", "\xe3\x80\x80", " \xc2\xa0\t", "#", " #", "\t# comment", "# comment", "#\r", "   #", "\xc2\xa0#", ";", "//", "\x00", " \x00 "}
 
 var robustDbLines = []string{"P:x", "P:y", "V:1.0-r0", "A:x86_64", "C:Q1p78yvTLG094tHE1+dToJGbmYzQE=", "D:a b", "p:c=1", "i:a", "F:usr", "F:usr/lib", "F:", "M:0:0:755", "M:0:0", "R:f", "R:../g", "R:", "a:0:0:644", "a:1000:1000:4755", "Z:Q1p78yvTLG094tHE1+dToJGbmYzQE=", "Z:Q1", "t:1700000000", "S:1", "I:2", "k:10", "", "", ""}
 
@@ -315,6 +361,21 @@ func (robustSuite) Gen(r *Rng, i int, tier string) any {
 				add(rd, []byte(b))
 			}
 		}
+		for _, rd := range []string{"passwd", "group", "osrelease", "index", "installed", "world", "repos", "pkginfo", "repoline"} {
+			good := map[string]string{"passwd": "root:x:0:0:root:/root:/bin/sh", "group": "root:x:0:root", "osrelease": "ID=wolfi", "index": "P:a", "installed": "P:a",
+				"world": "a", "repos": "https://r.test/main", "pkginfo": "datahash = ab", "repoline": "@e https://r.test/e"}[rd]
+			for _, bl := range robustBlankLines {
+				add(rd, []byte(bl+"\n"))
+				add(rd, []byte(good+"\n"+bl+"\n"+good+"\n"))
+			}
+		}
+		// .apk streams composed member by member: signed / unsigned, cut exactly at member boundaries, sections missing,
+		// repeated or in the wrong order, an empty member, garbage after a member
+		for _, comp := range robustApkCompositions {
+			b := robustComposeApk(comp)
+			add("split", b)
+			add("expandapk", b)
+		}
 		for _, l := range robustRepoLines {
 			add("repoline", []byte(l))
 		}
@@ -443,6 +504,15 @@ func (robustSuite) Gen(r *Rng, i int, tier string) any {
 			add("indexarchive", robustMutate(r, robustIndexArchiveSeed(), false))
 		case 12:
 			rd := Pick(r, []string{"split", "expandapk"})
+			if r.Chance(35) {
+				n := r.Intn(5)
+				comp := ""
+				for k := 0; k < n; k++ {
+					comp += Pick(r, []string{"s", "c", "d", "s", "c", "d", "e", "g", "t"})
+				}
+				add(rd, robustComposeApk(comp))
+				break
+			}
 			if r.Chance(50) {
 				ms := robustGunzipMembers(robustApkSeed())
 				if len(ms) >= 2 {
